@@ -265,8 +265,16 @@ INVALID = [
 
 def gen_enc_accept(rng):
     import spec
-    main = rng.choice(['ascii', 'utf-8', 'latin-1'])
+    wide = rng.random() < 0.35
+    main = rng.choice(['utf-16', 'utf-16-le', 'utf-16-be', 'utf-32', 'utf-32-le', 'utf-32-be', 'utf-8-sig']) if wide else \
+        rng.choice(['ascii', 'utf-8', 'latin-1'])
     texts = ['x\n', 'caf\u00e9\n', '\u65e5\u672c\n']
+    if wide:
+        # hostile but ENCODABLE texts: characters whose code units contain the newline bytes across a boundary, byte order
+        # marks inside the text, NUL, lone CR, lines of spaces (valid whatever the indent)
+        texts += [a + b for a in ('', 'a') for pair in MISALIGNED_FIRST_LINE.values() for x in pair if x
+                  for b in (x + 'b\r\nsecond\r\n', x + '\nx', x)]
+        texts += ['\ufeffx\n\ufeffy\n', 'a\n\ufffeb\n', '\x00\n', 'a\rb\n', '   \n \n', '\u0a00\u0a0a\u0d0a\n', '\u2028x\u2029\n']
     eff = {0: main}
     level = 0
     prev = 'diffx'
@@ -286,7 +294,7 @@ def gen_enc_accept(rng):
         target = spec.target_section(level, kind)
         ok = True
         if kind in ('new_change', 'new_file'):
-            e = rng.choice([None, None, 'ascii', 'utf-8', 'latin-1'])
+            e = rng.choice([None, None, 'ascii', 'utf-8', 'latin-1'] + (['utf-16', 'utf-32-be', 'utf-16-le'] if wide else []))
             call = [kind, sl.S(e) if e else None]
             level = 1 if kind == 'new_change' else 2
             eff[level] = e or eff[level - 1]
@@ -294,7 +302,8 @@ def gen_enc_accept(rng):
             own = rng.choice([None, None, None, 'ascii', 'utf-8'])
             t = rng.choice(texts)
             ok = can(t, own or eff[level])
-            call = ['write_preamble', sl.S(t), sl.S(own) if own else None, 'omitted', None, None]
+            ind = rng.choice(['omitted', 'omitted', None, {'i': 0}, {'i': 1}, {'i': 3}]) if wide else 'omitted'
+            call = ['write_preamble', sl.S(t), sl.S(own) if own else None, ind, None, None]
         elif kind == 'write_meta':
             call = ['write_meta', {'d': {'k': 'caf\u00e9'}}, None, 'omitted']
         else:
@@ -487,7 +496,9 @@ class Foreign(Family):
     name = 'foreign'
     rule = ('well-formed files from an independent spec-derived generator (options shuffled, optional options absent, '
             'blank/whitespace lines, CRLF headers, compact/pretty JSON, BOM or BOM-free text, undeclared line endings), '
-            'their single-defect mutations from the C03 catalogue, and copies with 1-4 unknown options inserted; '
+            'their single-defect mutations from the C03 catalogue (invalid JSON also at the byte level, also with no '
+            'encoding in force), and copies with 1-4 unknown options inserted (also read through BufferedReader / a real '
+            'file with a later header placed across the buffer edge); '
             'non-trivial = at least 4 sections; distinct by file bytes')
 
     def cases(self, tier, rng, prop_id):
@@ -502,12 +513,41 @@ class Foreign(Family):
                     yield dict(kind='defect', file=gf.inject(f, k, d, rng), base=f, at=k, defect=d)
             if prop_id in ('C03', 'ALL') and i % 50 == 0:
                 yield dict(kind='misaligned', file=gf.misaligned_file(rng))
+            if prop_id in ('C03', 'ALL') and i % 25 == 0:
+                # a file that declares no encoding anywhere (metadata is then JSON in the bytes' own UTF-8/16/32 form): each
+                # metadata section in turn gets well-formed JSON whose bytes are text in none of these
+                meta = lambda sid, d: dict(id=sid, opts=[['format', 'json'], ['length', str(len(json.dumps(d)) + 1)]], blank=[],
+                                           content=(json.dumps(d) + '\n').encode().hex(), expect=dict(metadata=d), enc=None, ast=None)
+                cont = lambda sid: dict(id=sid, opts=[], blank=[], content=None, expect={}, enc=None, ast=None)
+                base = dict(crlf=False, trailing=[], sections=[
+                    dict(id='diffx', opts=[['version', '1.0']], blank=[], content=None, expect={}, enc=None, ast=None),
+                    meta('.meta', {'k': 1}), cont('.change'), meta('..meta', {'id': 'a'}), cont('..file'), meta('...meta', {'path': 'p'})])
+                for k in (1, 3, 5):
+                    for _ in range(3):
+                        yield dict(kind='defect', file=gf.inject(base, k, 'invalid-json', rng), base=base, at=k, defect='invalid-json')
             if i % 40 == 0:
                 yield dict(kind='wellformed', file=gf.longline_file(rng))
             if prop_id in ('C12', 'ALL'):
                 for _ in range(2):
                     g, added = gf.add_unknown_options(f, rng)
                     yield dict(kind='unknown-options', file=g, base=f, added={str(k): v for k, v in added.items()})
+                if i % 6 == 0:
+                    # other stream kinds (BufferedReader, real file): an unknown option on the main header long enough to
+                    # push a later header across the stream's buffer edge (it starts d bytes before the edge, its newline
+                    # comes after it), for every later header of the file
+                    import io as _io
+                    base_data = gf.render(f)
+                    starts = [m.start() + 1 for m in _re.finditer(rb'\n#', base_data)]
+                    for wrap in ('buffered', 'file'):
+                        for hs in rng.sample(starts, min(3, len(starts))):
+                            ln = base_data.index(b'\n', hs) - hs
+                            d = rng.randint(1, max(1, min(95, ln)))
+                            edge = _io.DEFAULT_BUFFER_SIZE * rng.choice([1, 1, 2])
+                            k = edge - d - hs - len(b', pad=')
+                            if k >= 1 and not any(o[0] == 'pad' for o in f['sections'][0]['opts']):
+                                g = json.loads(json.dumps(f))
+                                g['sections'][0]['opts'].append(['pad', 'p' * k])
+                                yield dict(kind='unknown-options', file=g, base=f, added={'0': {'pad': 'p' * k}}, wrap=wrap)
                 if i < 3:
                     # every confusable key (internal identifiers, names containing an interpreted option's name) as the
                     # FIRST and as the LAST option of every header of this file
@@ -527,7 +567,7 @@ class Foreign(Family):
     def _impl(self, c):
         if '_impl' not in c:
             data = gf.render(c['file'])
-            c['_impl'] = (data,) + sl.run_reader(data)
+            c['_impl'] = (data,) + sl.run_reader(data, wrap=c.get('wrap'))
         return c['_impl']
 
     def model_line(self, c):
@@ -541,7 +581,7 @@ class Foreign(Family):
         return sl.collapse_exc(line)
 
     def key(self, c):
-        return gf.render(c['file']).hex()
+        return gf.render(c['file']).hex() + (c.get('wrap') or '')
 
     def bucket(self, c):
         return c['kind'] + ('/' + c['defect'] if 'defect' in c else '')
@@ -1660,10 +1700,16 @@ def dom_load(data):
     return r + (st.closed,)
 
 
+def spec_bomfree(t, enc):
+    import spec
+    return spec.bomfree(t, enc)
+
+
 class Fuzz(Family):
     name = 'fuzz'
     rule = ('random short byte strings, and byte-/token-/line-level corruptions (1-3 per input) of writer-produced and '
-            'foreign well-formed files biased towards option values and header/content boundaries; observation = '
+            'foreign well-formed files biased towards option values and header/content boundaries; option and content '
+            'grids (ill-typed values on every header; degenerate contents x indent x line_endings x encoding); observation = '
             'number of records and termination class; non-trivial = the input contains at least one well-formed header '
             'line; distinct by input bytes')
 
@@ -1737,6 +1783,27 @@ class Fuzz(Family):
                             opts = [(k, v) for k, v in opts if k != key] + [(key, val)]
                         out.append(gf.render_header(sid, opts, False) + (body or b''))
                     yield dict(kind='option-grid', data=hx(b''.join(out)))
+        # degenerate contents (empty, a newline and nothing else, spaces only, no final newline, a byte order mark only)
+        # x indent x line_endings x encoding, for every content section kind: the smallest inputs every length-, indent-
+        # and newline-dependent computation has to survive
+        for sid, pre in (('.preamble', b''), ('.meta', b''), ('...diff', b'#.change:\n#..file:\n#...meta: length=3\n{}\n')):
+            for enc in (None, 'utf-16', 'utf-32-be', 'utf-8-sig'):
+                e = enc or 'utf-8'
+                bom = ''.encode(e) if enc in ('utf-16', 'utf-8-sig') else b''
+                mid = lambda t: spec_bomfree(t, e)
+                for t in ('', '\n', '\r\n', ' \n', '    \n', 'x', 'x\n', '\n\n', ' ', '\r', '\n\r', '{}\n'):
+                    for body in {mid(t), bom + mid(t)}:
+                        for ind in (None, '0', '1', '4', '100'):
+                            for le in (None, 'unix', 'dos'):
+                                opts = [('length', str(len(body)))]
+                                if enc:
+                                    opts.append(('encoding', enc))
+                                if ind is not None:
+                                    opts.append(('indent', ind))
+                                if le:
+                                    opts.append(('line_endings', le))
+                                yield dict(kind='content-grid', data=hx(b'#diffx: version=1.0, encoding=utf-8\n' + pre +
+                                                                       gf.render_header(sid, opts, False) + body))
         # bytes that END with the encoded newline while the DECODED text does not end with the newline: a byte order mark
         # that announces the other byte order, and variants
         for enc, body in [(b'utf-16', b'\xfe\xff\x00a\x0a\x00'), (b'utf-16', b'\xfe\xff\x00a\x00\x0a\x0a\x00'),
